@@ -54,7 +54,17 @@ func genCross(transports []string) func(t *rapid.T) Cross {
 	}
 }
 
-func (c Cross) token(cl, q int) string { return fmt.Sprintf("c%dq%ds%08x", cl, q, c.Salt) }
+// Tokens carry, besides the case's salt, a nonce unique to this process and round: on loopback
+// sockets a port that another process has just released may be reassigned to this server or to one
+// of these clients, so a stray request/reply of ANOTHER process can arrive. Traffic without the
+// nonce is alien and ignored on real transports; on in-memory transports it is a violation.
+var crossSeq atomic.Uint64
+
+func (s *crossState) token(cl, q int) string {
+	return fmt.Sprintf("c%dq%ds%08x%s", cl, q, s.c.Salt, s.nonce)
+}
+
+func (s *crossState) real() bool { return s.c.Transport == "realUDP" || s.c.Transport == "realTCP" }
 
 const tokOpt = 65001
 
@@ -81,8 +91,9 @@ func tokens(m *dns.Msg) (qn, txt, opt string, ok bool) {
 	return qn, txt, opt, txt != "" && opt != ""
 }
 
-func (c Cross) request(cl, q int) *dns.Msg {
-	tok := c.token(cl, q)
+func (s *crossState) request(cl, q int) *dns.Msg {
+	c := s.c
+	tok := s.token(cl, q)
 	m := new(dns.Msg)
 	m.SetQuestion(tok+".x.test.", dns.TypeTXT)
 	if c.SameIDs {
@@ -103,10 +114,12 @@ func (c Cross) request(cl, q int) *dns.Msg {
 }
 
 type crossState struct {
+	nonce   string
 	c       Cross
 	mu      sync.Mutex
 	seen    map[string]int
 	bad     []string
+	alien   atomic.Int32
 	calls   atomic.Int32
 	active  atomic.Int32
 	maxAct  atomic.Int32
@@ -131,6 +144,10 @@ func (s *crossState) handler(w dns.ResponseWriter, req *dns.Msg) {
 	}
 	defer s.active.Add(-1)
 	qn, txt, opt, ok := tokens(req)
+	if s.real() && !strings.Contains(qn+txt+opt, s.nonce) {
+		s.alien.Add(1) // another process's datagram on a reassigned port
+		return
+	}
 	if !ok || qn != txt || qn != opt {
 		s.fail("handler saw a request nobody sent: qname token %q, TXT token %q, OPT token %q", qn, txt, opt)
 		return
@@ -164,7 +181,7 @@ func (s *crossState) handler(w dns.ResponseWriter, req *dns.Msg) {
 
 func checkCross(c Cross) error {
 	key, _ := json.Marshal(c)
-	s := &crossState{c: c, seen: map[string]int{}}
+	s := &crossState{c: c, seen: map[string]int{}, nonce: fmt.Sprintf("p%dr%d", os.Getpid(), crossSeq.Add(1))}
 	lost, err := s.run()
 	cl := []string{"transport=" + c.Transport, fmt.Sprintf("clients>=%d", bucket(c.Clients)), fmt.Sprintf("sameIDs=%v", c.SameIDs)}
 	inflight := s.maxAct.Load() >= 2
@@ -176,6 +193,9 @@ func checkCross(c Cross) error {
 	}
 	if lost > 0 {
 		cl = append(cl, "udp-datagram-lost")
+	}
+	if s.alien.Load() > 0 {
+		cl = append(cl, "alien-traffic-ignored")
 	}
 	pbt.Note(key, inflight, cl...)
 	if inflight {
@@ -264,8 +284,8 @@ func (s *crossState) run() (lost int, err error) {
 			co := &dns.Conn{Conn: conn, UDPSize: 1232}
 			<-gate
 			for q := 1; q <= c.Reqs; q++ {
-				m := c.request(cl, q)
-				tok := c.token(cl, q)
+				m := s.request(cl, q)
+				tok := s.token(cl, q)
 				tmo := hangLimit
 				if c.Transport == "realUDP" {
 					tmo = 2 * time.Second // a real datagram may be dropped by the kernel; that is not a violation
@@ -276,6 +296,14 @@ func (s *crossState) run() (lost int, err error) {
 					return
 				}
 				rep, e := co.ReadMsg()
+				for i := 0; e == nil && c.Transport == "realUDP" && i < 8; i++ {
+					a, b, o, _ := tokens(rep)
+					if strings.Contains(a+b+o, s.nonce) {
+						break
+					}
+					s.alien.Add(1) // a datagram of another process reached this client's port
+					rep, e = co.ReadMsg()
+				}
 				if e != nil {
 					if c.Transport == "realUDP" && isTimeout(e) {
 						// a straggling reply could now arrive during the next read: stop using this socket
@@ -329,9 +357,9 @@ func (s *crossState) run() (lost int, err error) {
 	// datagram was lost on the way in - exactly once
 	for cl := 1; cl <= c.Clients; cl++ {
 		for q := 1; q <= c.Reqs; q++ {
-			n := s.seen[c.token(cl, q)]
+			n := s.seen[s.token(cl, q)]
 			if n > 1 || (n == 0 && lost == 0) {
-				return lost, fmt.Errorf("request with token %s was handled %d times", c.token(cl, q), n)
+				return lost, fmt.Errorf("request with token %s was handled %d times", s.token(cl, q), n)
 			}
 		}
 	}
